@@ -613,7 +613,19 @@ func (vc *VC) runDefers(h *Heap, reach *string, panicking string) (recovered boo
 			if !vc.ancestors(vc.curBlock)[db.Index] {
 				continue // this exit is not reachable from the defer statement: the call was never deferred
 			}
-			panic(unsupportedErr("conditional defer"))
+			// a defer statement on some paths only: the call runs exactly when its block was passed
+			g, ok := vc.blockReach[db]
+			if !ok {
+				panic(unsupportedErr("conditional defer in a block without a path condition"))
+			}
+			if _, isClosure := d.Call.Value.(*ssa.MakeClosure); isClosure {
+				panic(unsupportedErr("conditional defer of a closure"))
+			}
+			h2 := h.clone()
+			r2 := and(*reach, g)
+			vc.execCall(d, d.Common(), h2, &r2)
+			vc.mergeGuarded(h, h2, g)
+			continue
 		}
 		if mc, ok := d.Call.Value.(*ssa.MakeClosure); ok {
 			fn := mc.Fn.(*ssa.Function)
